@@ -422,11 +422,41 @@ def rule_R14(text, log):
     return text[:last + 1] + new + text[c:]
 
 
-RULES = {'R5': rule_R5,
+def rule_R15(text, log):
+    """O.as_deref()  ==>  (match &O { Some(b__) => Some(&**b__), None => None })   (std: as_ref().map(Deref::deref))"""
+    while True:
+        m = mask(text)
+        mm = re.search(r'\.\s*as_deref\s*\(\s*\)', m)
+        if not mm:
+            return text
+        rs = receiver_start(m, mm.start())
+        recv = text[rs:mm.start()].rstrip()
+        after = '(match &%s { Some(b__) => Some(&**b__), None => None })' % recv
+        log.append(dict(rule='R15', before=text[rs:mm.end()], after=after))
+        text = text[:rs] + after + text[mm.end():]
+
+
+def rule_R6bp(text, log):
+    """O.map(path)  (a function path, value position)  ==>  (match O { Some(x__) => Some(path(x__)), None => None })"""
+    while True:
+        m = mask(text)
+        mm = None
+        for cand in re.finditer(r'\.\s*map\s*\(\s*([A-Za-z_][A-Za-z0-9_:]*)\s*\)', m):
+            mm = cand
+        if not mm:
+            return text
+        rs = receiver_start(m, mm.start())
+        recv = text[rs:mm.start()].rstrip()
+        after = '(match %s { Some(x__) => Some(%s(x__)), None => None })' % (recv, mm.group(1))
+        log.append(dict(rule='R6b', before=text[rs:mm.end()], after=after))
+        text = text[:rs] + after + text[mm.end():]
+
+
+RULES = {'R5': rule_R5, 'R15': rule_R15, 'R6bp': rule_R6bp,
     'R1': rule_R1, 'R2': rule_R2, 'R3': rule_R3, 'R3b': rule_R3b, 'R4': rule_R4,
     'R6': rule_R6, 'R6b': rule_R6b, 'R6c': rule_R6c,
 }
-DEFAULT_ORDER = ['R6c', 'R1', 'R2', 'R3', 'R3b', 'R6', 'R6b', 'R4']
+DEFAULT_ORDER = ['R15', 'R6c', 'R1', 'R2', 'R3', 'R3b', 'R6', 'R6b', 'R6bp', 'R4']
 
 
 def apply_rules(text, log, rules=None):
